@@ -15,7 +15,7 @@ func registerAll() {
 		"sim extension profiles XP1/XP2 (thin structs over the real encoding helpers, fault switch)", "committed key pool"}
 
 	props["C19"] = &propSpec{
-		ID: "C19", Worlds: []string{"W-EVID"}, QuickRuns: 4000, ThoroughRuns: 400000,
+		ID: "C19", Worlds: []string{"W-EVID"}, QuickRuns: 12000, ThoroughRuns: 600000,
 		Rule: "one run = one history of 1..30 operations {SetClaims, Sign, ValidateAndSign, UnmarshalCOSE, Verify, outside mutation} on one Evidence with signer faults and user-codec faults at PRNG-chosen positions; " +
 			"non-trivial = at least one fault actually fired and at least one Verify was evaluated after it; distinct = distinct hash of (operation-kind+fault sequence, claims-pool profiles/defects, signer algorithms, token kinds)",
 		Real: commonReal, Stubs: stubsEvid,
